@@ -26,6 +26,9 @@ def main():
         contextualize_report(sub)
         S.clear_sandbox()
         sb = S.get_sandbox()
+        if case.get('sections'):
+            from pedal.source.sections import separate_into_sections
+            separate_into_sections(independent=True)
         steps = []
         for st in case['steps']:
             before = globals_snapshot()
@@ -40,7 +43,10 @@ def main():
                 if st.get('nested'):
                     # an instructor helper placed in the student namespace that itself calls into the sandbox
                     sb.data['instructor_helper'] = lambda: S.call(st['nested'])
-                if st['entry'] == 'run':
+                if st['entry'] == 'next_section':
+                    from pedal.source.sections import next_section
+                    next_section()
+                elif st['entry'] == 'run':
                     ret = S.run(**kw)
                 elif st['entry'] == 'runafter':
                     ret = S.run(after=st['after'], **kw)
